@@ -481,4 +481,85 @@ def parentHyp (lang : Lang) (root : NodeRef) : ParentHyp :=
         if okH && okC then { acc with checked := acc.checked + 1, parents := (d.id, exp.id) :: acc.parents }
         else { acc with bad := acc.bad + 1 }
 
+
+/-! ### Runtime side of `next_sibling_spec_partial` (NodeProps.lean) -/
+
+/-- `ts_node__subtree(child).ptr == ts_node__subtree(self).ptr` -/
+def samePtr (child self : NodeRef) : Bool :=
+  (child.t.data.addr != 0 && child.t.data.addr == self.t.data.addr) ||
+    (child.t.data.addr == 0 && self.t.data.addr == 0 && decide (child.t.data = self.t.data))
+
+mutual
+  /-- Every raw node of the subtree, placed at byte `st`, ends strictly after byte `tgt` (in the
+  positions of `ts_node_child_iterator_next`: the first child starts where its parent starts, each
+  later child after the previous one plus its own padding).  For nodes that start at or after `tgt`
+  this excludes exactly the zero-width nodes AT `tgt`. -/
+  def endsAfter (tgt : Nat) : Tree → Nat → Bool
+    | .mk d kids, st => decide (tgt < st + d.size.bytes) && endsAfterL tgt kids st true
+  def endsAfterL (tgt : Nat) : List Tree → Nat → Bool → Bool
+    | [], _, _ => true
+    | c :: rest, pos, first =>
+      endsAfter tgt c (if first then pos else pos + c.data.padding.bytes) &&
+        endsAfterL tgt rest ((if first then pos else pos + c.data.padding.bytes) + c.data.size.bytes) false
+end
+
+/-- The visible nodes that follow the end of the path: later siblings at the deepest level first,
+then those of each ancestor on the path (the same list as `laterSiblings` of the cursor theorems). -/
+def laterOnPath (lang : Lang) : NodeRef → List Nat → List (Tree × Nat)
+  | _, [] => []
+  | n, k :: rest => match (rawChildren lang n)[k]? with
+    | some rc => laterOnPath lang rc.node rest ++
+        enumKids lang n.t.data.productionId (n.t.kids.drop (k + 1)) (if rc.node.t.data.extra then rc.si else rc.si + 1)
+    | none => []
+
+/-- Hypotheses of `next_sibling_spec_partial` along the path (decidable; evaluated on real trees):
+at every level, every raw node among the later siblings (and inside them) ends strictly after the
+end of `self` — i.e. no zero-width raw node sits exactly where `self` ends — and no ancestor on the
+path is the same subtree as `self`. -/
+def nsPathOK (lang : Lang) (self : NodeRef) : NodeRef → List Nat → Bool
+  | _, [] => true
+  | n, k :: rest =>
+    match (rawChildren lang n)[k]? with
+    | some rc => endsAfterL self.endByte (n.t.kids.drop (k + 1)) rc.posAfter.bytes false &&
+        (rest.isEmpty || (!samePtr rc.node self && nsPathOK lang self rc.node rest))
+    | none => false
+
+
+/-- Nearest relevant proper ancestor of the end of the path together with the path from it
+(`parentOnPath` = first component). -/
+def parentSplit (lang : Lang) : NodeRef × List Nat → NodeRef → List Nat → NodeRef × List Nat
+  | best, _, [] => best
+  | best, _, [_] => best
+  | best, n, k :: k' :: rest => match rawChildAt lang n k with
+    | some c => parentSplit lang (if c.relevant lang true then (c, k' :: rest) else best) c (k' :: rest)
+    | none => best
+
+/-- Evaluation of `next_sibling_spec_partial` on a real tree, over every relevant NON-EMPTY node
+below the root: `checked` = nodes whose path from the parent satisfies `nsPathOK` and for which the
+ported `ts_node_next_sibling` returns the head of `laterOnPath` (same subtree data and alias);
+`outside` = nodes excluded by the hypothesis (a zero-width raw node sits where the node ends);
+`bad` = hypothesis holds but the conclusion fails.  `nexts` = (id, expected next sibling's data and
+alias) for the comparison with the flattened tree. -/
+structure SiblingHyp where
+  checked : Nat := 0
+  outside : Nat := 0
+  bad : Nat := 0
+  nexts : List (Nat × Option (NodeData × Nat)) := []
+
+def siblingHyp (lang : Lang) (root : NodeRef) : SiblingHyp :=
+  (pathsOf root.t).foldl (init := {}) fun acc p =>
+    match nodeAt lang root p with
+    | none => { acc with bad := acc.bad + 1 }
+    | some d =>
+      if !d.relevant lang true || d.startByte == d.endByte then acc
+      else
+        let (par, q) := parentSplit lang (root, p) root p
+        if !(nsPathOK lang d par q) then { acc with outside := acc.outside + 1 }
+        else
+          let exp := ((laterOnPath lang par q).head?).map fun x => (x.1.data, x.2)
+          let got := (nextSiblingPort lang (root.t.size + 1) root d true).map fun r => (r.t.data, r.alias)
+          if par.id == (parentOnPath lang root root p).id && decide (got = exp) then
+            { acc with checked := acc.checked + 1, nexts := (d.id, exp) :: acc.nexts }
+          else { acc with bad := acc.bad + 1 }
+
 end TsVerif.C06
